@@ -1,0 +1,20 @@
+/*
+ * Verification hooks (no effect unless HWLOC_VERIF is defined).
+ *
+ * HWLOC_VERIF_LOOP(tag) marks the place between a loop header and its body
+ * where a deductive verifier expects the loop contract.  A verification
+ * driver that defines HWLOC_VERIF must provide one HWLOC_VERIF_LOOP_<tag>
+ * macro per anchor (a loop invariant, or nothing).  Regular builds never
+ * define HWLOC_VERIF and see an empty expansion.
+ */
+
+#ifndef HWLOC_PRIVATE_VERIF_H
+#define HWLOC_PRIVATE_VERIF_H
+
+#ifdef HWLOC_VERIF
+#define HWLOC_VERIF_LOOP(tag) HWLOC_VERIF_LOOP_##tag
+#else
+#define HWLOC_VERIF_LOOP(tag)
+#endif
+
+#endif /* HWLOC_PRIVATE_VERIF_H */
